@@ -163,9 +163,16 @@ var words = []string{"", "a", "b", "foo", "bar", "hello", "true", "false", "1", 
 // String draws a valid UTF-8 string over the hostile alphabet.
 func String() *rapid.Generator[string] {
 	return rapid.Custom(func(t *rapid.T) string {
-		switch rapid.IntRange(0, 6).Draw(t, "strclass") {
+		switch rapid.IntRange(0, 7).Draw(t, "strclass") {
 		case 0, 1:
 			return rapid.SampledFrom(words).Draw(t, "word")
+		case 7:
+			// LONG strings: one of a few long bodies (so that two draws often
+			// share it) cut at a length around 64 / 256 / 1024 bytes, plus a
+			// short tail: strings that agree on a long prefix and differ only
+			// after it, which anything that looks at a bounded prefix of a
+			// string (hash bytes, prefix refinements, buffers) conflates
+			return LongString(t, "long")
 		case 6:
 			if rapid.Bool().Draw(t, "collide") {
 				return CollidingString(t, "colliding")
@@ -180,6 +187,26 @@ func String() *rapid.Generator[string] {
 			return b.String()
 		}
 	})
+}
+
+// LongLengths are the byte lengths of long string bodies.
+var LongLengths = []int{63, 64, 65, 80, 255, 256, 257, 300, 1023, 1025}
+
+var longUnits = []string{"x", "ab", "\u00e9", "k-", "0123456789"}
+
+// LongString draws a long string: a body of a drawn length built from a
+// repeated unit, and a tail of 0..2 alphabet units.
+func LongString(t *rapid.T, label string) string {
+	unit := rapid.SampledFrom(longUnits).Draw(t, label+"/unit")
+	n := rapid.SampledFrom(LongLengths).Draw(t, label+"/len")
+	var b strings.Builder
+	for b.Len()+len(unit) <= n {
+		b.WriteString(unit)
+	}
+	for k := rapid.IntRange(0, 2).Draw(t, label+"/tail"); k > 0; k-- {
+		b.WriteString(rapid.SampledFrom(alphabet).Draw(t, label+"/ch"))
+	}
+	return b.String()
 }
 
 // SimpleString draws from a small pool of plain words (for keys etc.).
